@@ -72,6 +72,28 @@ Proof.
     + destruct (IH _ _ _ H d Hd) as (Hin & R). split; [right; auto|auto].
 Qed.
 
+Lemma scan_td_complete f : forall ids w td w', scan_loop f ids w = Val (OK td, w') -> NoDup ids ->
+  forall d n, In d ids -> w_nodes w d = Some n -> n_files n <> [] -> set_remove f (n_files n) = [] -> In d td.
+Proof.
+  induction ids as [|s rest IH]; intros w td w' H Hnd d n Hd Hn Hne Hem; [destruct Hd|].
+  cbn [scan_loop] in H. inversion Hnd as [|? ? Hns Hnd']; subst.
+  apply wbind_inv in H as [(sn & w1 & H1 & H) | (e0 & H1 & [=])].
+  apply get_node_inv in H1 as (sn' & Hsn & [= <-] & ->).
+  destruct (negb (is_empty (n_files sn))) eqn:Ene.
+  - apply wbind_inv in H as [(u & w1 & H1 & H) | (e0 & H1 & [=])].
+    apply set_node_wset in H1 as (_ & ->).
+    apply wbind_inv in H as [(td1 & w2 & H2 & H) | (e0 & H2 & [=])].
+    apply wret_inv in H as (E & ->). injection E as E. subst td.
+    destruct Hd as [<-|Hd].
+    + assert (sn = n) by congruence. subst sn. rewrite Hem. cbn. left. reflexivity.
+    + assert (In d td1) as Hd1.
+      { eapply (IH _ _ _ H2 Hnd' d n Hd); auto. rewrite nodes_wset_neq; auto. intros ->. contradiction. }
+      destruct (is_empty (set_remove f (n_files sn))); [right; auto|auto].
+  - destruct Hd as [<-|Hd].
+    + exfalso. assert (sn = n) by congruence. subst sn. apply Bool.negb_false_iff, is_empty_nil in Ene. contradiction.
+    + eapply IH; eauto.
+Qed.
+
 Section Remove.
 Variable T : tables.
 
@@ -313,7 +335,8 @@ Lemma remove_file_shape m f w r w' :
     model_b w m = Some x /\ In x (w_models w) /\ In f (m_files x) /\ (forall j, w_nodes w1 j = w_nodes w j) /\ same_tree w w1 /\
     Eff w (m_root x) cur /\ set_remove f cur <> [] /\
     Stripped f (m_root x) cur w1 w3 /\ TreeInv w3 /\ FilesInv T w3 /\ del_loop td w3 = Val (r3, w') /\
-    forall d, In d td -> Reach w (m_root x) d /\ exists n, w_nodes w d = Some n /\ n_files n <> [] /\ set_remove f (n_files n) = [].
+    (forall d, In d td -> Reach w (m_root x) d /\ exists n, w_nodes w d = Some n /\ n_files n <> [] /\ set_remove f (n_files n) = []) /\
+    (forall d n, Reach w (m_root x) d -> d <> m_root x -> w_nodes w d = Some n -> n_files n <> [] -> set_remove f (n_files n) = [] -> In d td).
 Proof.
   intros TI FI HK HU HL H. pose proof TI as (C & _). unfold m_remove_file in H.
   apply wbind_inv in H as [(x & w0 & H1 & H) | (e0 & H1 & _)]; [|apply get_model_inv in H1 as (? & _ & [=] & _)].
@@ -406,7 +429,7 @@ Proof.
   assert (Core w2) as C2 by (eapply Core_same_tree; eauto).
   apply wbind_inv in H as [(w0 & w3 & H3 & H) | (e0 & H3 & _)]; [|apply wget_inv in H3 as ([=] & _)].
   apply wget_inv in H3 as ([= ->] & ->).
-  destruct (dfs_ids_preorder w2 (m_root x) C2) as (l & Hl & _ & _ & Hids).
+  destruct (dfs_ids_preorder w2 (m_root x) C2) as (l & Hl & _ & Hndl & Hids).
   { apply (allocated_same_tree w1 w2); auto. exists rn; auto. }
   apply wbind_inv in H as [(ids & w3 & H3 & H) | (e0 & H3 & _)]; [|congruence].
   assert (ids = l /\ w3 = w2) as (-> & ->) by (rewrite Hl in H3; injection H3; auto). clear H3.
@@ -450,16 +473,21 @@ Proof.
       symmetry. apply (reach_one_root w x y i C Hxin Hyin Hr Hi). }
   exists x, cur, w1, w3, td, r0. split; [exact Hx|]. split; [exact Hxin|]. split; [exact Hfin|]. split; [exact Hn1|]. split; [exact ST|].
   split; [exact Hcur|]. split; [exact Hrest|]. split; [exact S|]. split; [exact TI3|]. split; [exact FI3|]. split; [exact H|].
-  intros d Hd. destruct (scan_td f l w2 td w3 H3 d Hd) as (Hdl & n2 & Hn2 & Hne2 & He2).
-  assert (Reach w (m_root x) d) as Hrd.
-  { apply Hids in Hdl. apply (reach_same_tree w2 w); auto. apply same_tree_sym. eapply same_tree_trans; eauto. }
-  split; auto.
   pose proof H2 as H2'. apply modify_node_wset in H2' as (en' & Hen' & _ & Ew2).
-  destruct (N.eq_dec d (m_root x)) as [->|Hdr].
-  - exfalso. rewrite Ew2 in Hn2. rewrite nodes_wset_eq in Hn2. injection Hn2 as <-.
-    change (n_files (set_files en' (set_remove f cur))) with (set_remove f cur) in Hne2, He2.
-    rewrite set_remove_idem in He2. congruence.
-  - rewrite Ew2 in Hn2. rewrite nodes_wset_neq in Hn2; auto. rewrite Hn1 in Hn2. eauto.
+  split.
+  - intros d Hd. destruct (scan_td f l w2 td w3 H3 d Hd) as (Hdl & n2 & Hn2 & Hne2 & He2).
+    assert (Reach w (m_root x) d) as Hrd.
+    { apply Hids in Hdl. apply (reach_same_tree w2 w); auto. apply same_tree_sym. eapply same_tree_trans; eauto. }
+    split; auto.
+    destruct (N.eq_dec d (m_root x)) as [->|Hdr].
+    + exfalso. rewrite Ew2 in Hn2. rewrite nodes_wset_eq in Hn2. injection Hn2 as <-.
+      change (n_files (set_files en' (set_remove f cur))) with (set_remove f cur) in Hne2, He2.
+      rewrite set_remove_idem in He2. congruence.
+    + rewrite Ew2 in Hn2. rewrite nodes_wset_neq in Hn2; auto. rewrite Hn1 in Hn2. eauto.
+  - intros d nd Hrd Hdr Hnd Hned Hemd.
+    assert (In d l) as Hdl by (apply Hids; apply (reach_same_tree w w2); auto; eapply same_tree_trans; eauto).
+    assert (w_nodes w2 d = Some nd) as Hnd2 by (rewrite Ew2; rewrite nodes_wset_neq; auto; rewrite Hn1; exact Hnd).
+    exact (scan_td_complete f l w2 td w3 H3 Hndl d nd Hdl Hnd2 Hned Hemd).
 Qed.
 
 Theorem remove_file_inv m f w r w' :
@@ -468,7 +496,7 @@ Theorem remove_file_inv m f w r w' :
   m_remove_file T m f w = Val (r, w') -> FilesInv T w'.
 Proof.
   intros TI FI HK HU HL H.
-  destruct (remove_file_shape m f w r w' TI FI HK HU HL H) as [(-> & _)|(x & cur & w1 & w3 & td & r3 & _ & _ & _ & _ & _ & _ & _ & _ & TI3 & FI3 & Hd & _)]; auto.
+  destruct (remove_file_shape m f w r w' TI FI HK HU HL H) as [(-> & _)|(x & cur & w1 & w3 & td & r3 & _ & _ & _ & _ & _ & _ & _ & _ & TI3 & FI3 & Hd & _ & _)]; auto.
   destruct (del_loop_inv _ _ _ _ TI3 FI3 Hd) as (_ & FI4 & _). exact FI4.
 Qed.
 
